@@ -33,3 +33,19 @@
         let e = HipEstimator::new(lg_k);
         assert!(e.hip_accum == 0.0 && e.kxq1 == 0.0 && !e.out_of_order && e.kxq0 == (1u64 << lg_k) as f64);
     }
+    // HIP increment is a function of the state BEFORE the register change only: two updates from the same state with different
+    // (old, new) register values add the same amount (and none when out of order).  Catches an increment computed after update_kxq.
+    #[kani::proof]
+    fn c01_hll_hip_increment_from_old_state() {
+        let lg_k: u8 = kani::any(); kani::assume(lg_k >= 4 && lg_k <= 21);
+        let o1: u8 = kani::any(); let n1: u8 = kani::any(); let o2: u8 = kani::any(); let n2: u8 = kani::any();
+        kani::assume(o1 <= 63 && n1 <= 63 && o2 <= 63 && n2 <= 63);
+        let h: f64 = kani::any(); let q0: f64 = kani::any(); let q1: f64 = kani::any(); let ooo: bool = kani::any();
+        kani::assume(h.is_finite() && q0.is_finite() && q1.is_finite() && q0 + q1 > 0.0);
+        let mut a = HipEstimator { hip_accum: h, kxq0: q0, kxq1: q1, out_of_order: ooo };
+        let mut b = HipEstimator { hip_accum: h, kxq0: q0, kxq1: q1, out_of_order: ooo };
+        a.update(lg_k, o1, n1); b.update(lg_k, o2, n2);
+        assert!(a.hip_accum.to_bits() == b.hip_accum.to_bits());
+        assert!(!ooo || a.hip_accum.to_bits() == h.to_bits());
+        assert!(a.out_of_order == ooo && b.out_of_order == ooo);
+    }
